@@ -641,6 +641,20 @@ class Emitter:
             a, ta = self.blk(e[2])
             b, tb = self.blk(e[3])
             return '(if %s then %s else %s)' % (c, a, b), ta
+        if k == 'iflet':
+            # `if let Some(x) = opt { a } else { b }` as a value
+            pat, scrut, b_then, b_else = e[1], e[2], e[3], e[4]
+            sc, sty = self.ex(scrut)
+            if b_else is None or not (pat[0] == 'pcall' and pat[1] == ['Some'] and len(pat[2]) == 1 and pat[2][0][0] in ('pid', 'pwild')
+                                      and isinstance(sty, tuple) and sty[0] == 'opt'):
+                raise Untranslatable('if let other than `Some(x) = <option>` with an else branch')
+            sub = self.sub()
+            x = pat[2][0][1] if pat[2][0][0] == 'pid' else '_'
+            if x != '_':
+                sub.env[x] = (x, sty[1])
+            a, ta = sub.blk(b_then)
+            b, tb = self.blk(b_else)
+            return '(match %s with | some %s => %s | none => %s)' % (sc, x, a, b), ta
         if k == 'match':
             return self.match(e[1], e[2])
         if k == 'block':
@@ -1301,6 +1315,16 @@ class Emitter:
                 raise Untranslatable('loop body with a value')
         return st
 
+    @staticmethod
+    def is_continue_guard(st):
+        """`if c { continue; }` (no else): the condition under which the rest of the loop body is skipped"""
+        if st[0] == 'expr' and st[1][0] == 'if' and st[1][3] is None:
+            blk = st[1][2]
+            body = list(blk[1]) + ([('expr', blk[2])] if blk[2] is not None else [])
+            if len(body) == 1 and body[0][0] == 'expr' and body[0][1] == ('path', ['continue']):
+                return st[1][1]
+        return None
+
     def loop_effects(self, b, rets, assigns):
         for st in self.body_stmts(b):
             if st[0] == 'return':
@@ -1309,6 +1333,8 @@ class Emitter:
                 assigns.append(st)
             elif st[0] == 'for':
                 self.loop_effects(st[3], rets, assigns)
+            elif self.is_continue_guard(st) is not None:
+                pass
             elif st[0] == 'expr' and st[1][0] == 'if':
                 self.loop_effects(st[1][2], rets, assigns)
                 if st[1][3] is not None:
@@ -1356,6 +1382,10 @@ class Emitter:
             for n, tt, tty in binds:
                 sub.env[n] = (tt, tty)
             return '(let %s := %s; %s)' % (ptxt, t, sub.any_body(rest))
+        g = self.is_continue_guard(s)
+        if g is not None:
+            # the rest of this iteration runs only when the guard is false
+            return '(if %s then false else %s)' % (self.as_prop(g), self.any_body(rest))
         if s[0] == 'for':
             t, ptxt, sub = self.loop_binder(s[1], s[2])
             here = '(%s.any fun %s => %s)' % (t, ptxt, sub.any_body(self.body_stmts(s[3])))
@@ -1384,6 +1414,9 @@ class Emitter:
             t, ptxt, sub = self.loop_binder(s[1], s[2])
             return '(let %s := (%s.foldl (fun %s %s => %s) %s); %s)' % (
                 acc, t, acc, ptxt, sub.acc_body(self.body_stmts(s[3]), acc), acc, self.acc_body(rest, acc))
+        g = self.is_continue_guard(s)
+        if g is not None:
+            return '(if %s then %s else %s)' % (self.as_prop(g), acc, self.acc_body(rest, acc))
         if s[0] == 'assign' and s[1] == ('path', [acc]) and s[2] in ('+=', '-=', '*='):
             v, vty = self.ex(s[3])
             return '(let %s := (%s %s %s); %s)' % (acc, acc, s[2][0], v, self.acc_body(rest, acc))
@@ -2345,11 +2378,16 @@ def shape_energy (s o : Shape α) : α :=
             raise Untranslatable('set_value: `self.value.set_value(…)` not found')
         j = match_brace(body, m.end() - 1)
         pre = body[:m.start()]
-        if re.sub(r'\s+', '', pre) != 'self.old=self.get_value();':
+        m0 = re.match(r'\s*self\.old\s*=\s*self\.get_value\(\)\s*;', pre)
+        if not m0:
             raise Untranslatable('set_value: does not start with `self.old = self.get_value();`')
+        # local bindings between remembering the old value and the write belong to the written value
+        lets = pre[m0.end():]
+        if re.search(r'self\.old\s*=|set_value|reset_value', lets):
+            raise Untranslatable('set_value: other effects before the write')
         if re.sub(r'\s+', '', body[j + 1:]) not in ('', ';'):
             raise Untranslatable('set_value: statements after the write')
-        return body[m.end():j]
+        return lets + body[m.end():j]
     g.add('basis_clamped', '(self : Handle α) (new_value : α)', 'α', 'src/basis.rs', 'set_value', bb,
           dict(henv, new_value=('new_value', 'f')), cut=cut_set_value)
 
